@@ -4,21 +4,39 @@ E1 (grid): every (tempo, meter change, reference beat, quant, phase, number
 type) of a small grid is driven through a real TempoClock from a routine
 running on that clock in NRT mode; next_time_on_grid / play(quant) / the
 beat<->second and bar<->beat conversions are compared with exact rational
-reference semantics (mc/oracles/tempo_ref.py).
+reference semantics (mc/oracles/tempo_ref.py).  A second, small grid uses
+values off the quarter grid (tolerance rules only).
+
+E1b (offref): explicit reference beats queried while the clock stands at
+another beat.
+
+E1c (forms): every public route to a quantised play (Routine.play / run /
+resume, TempoClock.play of functions and routines, event patterns,
+play_next_bar, sched, sched_abs) x every form of the quant argument, asked
+by the routine on the clock, by the main thread, by a routine on SystemClock
+or on another TempoClock, on clocks constructed with beats / seconds
+arguments.
 
 E2 (histories): breadth-first search over all histories of {tempo=, etempo(),
 beats=, beats_per_bar=, yield d} executed by one routine on the clock; after
 every operation the (beats, seconds) pair, the conversions, the bar lines and
 the quantisation grid are compared with the reference.  A second history
-system adds quantised play() of probe routines that are still pending while
-the map is changed, a third one a second routine ("player") that resumes
-every delta beats on the clock while the first routine changes the map.
+system adds quantised play() / sched() of probes that are still pending while
+the map is changed, a third one a second routine or function ("player") that
+resumes every delta beats on the clock while the first routine changes the
+map.
+
+Every family also runs in RT-virtual mode (mc/seams.py: the real clock
+threads under a cooperative scheduler and virtual time, default schedule)
+with all timers on time and with all timed wake-ups 2**-10 s late.
 
 A case is plain JSON; the whole program is re-executed from `main.reset()`
-and a fresh TempoClock for every evaluation (clocks live only inside
-`execute`; TempoClock._all is a WeakSet and is asserted empty afterwards)."""
+(NRT) or a fresh seams.Execution (RT) and a fresh TempoClock for every
+evaluation (clocks live only inside `execute`; TempoClock._all is a WeakSet
+and is asserted empty afterwards)."""
 
 import gc
+import re
 from fractions import Fraction as F
 
 from mc import core
@@ -41,38 +59,118 @@ def _g(f, *a):
         return ['!', type(e).__name__, str(e)[:80]]
 
 
+RT_HORIZON = 4096.0    # virtual seconds an RT execution is given to finish
+QUANT_FORMS = ('auto', 'num', 'quant', 'quant1', 'kw', 'tuple', 'list',
+               'list1', 'none')
+QUANT_ENTRIES = ('rplay', 'rplaykw', 'cplayf', 'cplayr', 'inherit', 'run',
+                 'deco', 'resume', 'pattern')
+OTHER_ENTRIES = ('next_bar', 'sched', 'sched_abs')
+
+
+def mk_quant(q, ph, form, Quant):
+    """The `quant` argument for (quant q, phase ph) in one of the forms
+    Quant.as_quant accepts."""
+    if form == 'auto':
+        return q if ph == 0 else Quant(q, ph)
+    if form == 'quant':
+        return Quant(q, ph)
+    if form == 'kw':
+        return Quant(quant=q, phase=ph)
+    if form == 'tuple':
+        return (q, ph)
+    if form == 'list':
+        return [q, ph]
+    if ph != 0:
+        raise core.HarnessError(f'form {form} needs phase 0')
+    if form == 'num':
+        return q
+    if form == 'quant1':
+        return Quant(q)
+    if form == 'list1':
+        return [q]
+    if form == 'none':
+        return None
+    raise core.HarnessError(f'bad quant form {form}')
+
+
+def _late_chooser():
+    """Every timed wake-up of the run is late by the first non-zero entry of
+    the lateness menu; all other choices are the default."""
+    from mc import vthreading as vt
+
+    class Late(vt.Chooser):
+        def choose(self, kind, n, preemptive):
+            c = 1 if kind == 'late' and n > 1 else 0
+            self.points.append((kind, n, preemptive))
+            self.choices.append(c)
+            return c
+    return Late(())
+
+
 def execute(prog):
-    """Run `prog` on a fresh TempoClock in NRT mode and return the
-    observation log (plain data).
+    """Run `prog` on a fresh TempoClock and return the observation log
+    (plain data).  NRT mode unless prog['rt'] is 'rt' (RT-virtual mode,
+    every timer on time) or 'late' (RT-virtual, every timed wake-up late by
+    2**-10 s).
 
     prog = {'tempo': T0, 'ops': [op...], 'final': {...},
-            'player': {'delta': d, 'count': n} | absent}
+            'ctor': [beats|None, seconds|None] | absent,
+            'host': {'kind': 'main'|'system'|'tempo', 'at': seconds} | absent,
+            'player': {'delta': d, 'count': n, 'kind': 'routine'|'func'}
+                      | absent,
+            'rt': 'rt' | 'late' | absent}
     op   = ['yield', d] | ['tempo', v] | ['etempo', v] | ['beats', v] |
-           ['bpb', v] | ['spawn', q, ph]
+           ['bpb', v] | ['spawn', q, ph] | ['spawn', q, ph, entry, form]
     final = {'conv_beats': [...], 'conv_secs': [...], 'bar_beats': [...],
-             'bars': [...], 'ntog': [[q, ph, ref|None]...],
-             'play': [[q, ph]...]}
+             'bars': [...], 'ntog': [[q, ph, ref|None(, form)]...],
+             'play': [[q, ph(, entry, form)]...]}
+    The ops are performed by a routine on the clock.  The final queries and
+    plays are made by that routine after its last operation or, with a
+    host, at second `at` by the main thread / a routine on SystemClock / a
+    routine on another TempoClock (tempo 2).
     """
     from sc3.base.main import main
-    from sc3.base.clock import TempoClock, Quant
-    from sc3.base.stream import Routine
+    from sc3.base.clock import TempoClock, Quant, SystemClock
+    from sc3.base.stream import Routine, routine
 
-    main.reset()
+    rt = prog.get('rt')
+    if (core._worker_mode == 'rt') != bool(rt):
+        raise core.HarnessError(
+            f'program mode {rt!r} in a worker of mode {core._worker_mode!r}')
     log = {'steps': [], 'spawned': {}, 'final': None, 'wakes': {},
-           'budget': False, 'events': []}
+           'wakes2': {}, 'budget': False, 'events': []}
     player = prog.get('player')
+    host = prog.get('host')
     ops = prog['ops']
     fin = prog.get('final') or {}
-    clock = TempoClock(prog['tempo'])
+    cargs = [prog['tempo']] + list(prog.get('ctor') or ())
+    other = None
+    if rt:
+        from mc import seams, vthreading as vt
+        ex = seams.Execution(prefix=[])
+        clock = ex.new_tempo_clock(*cargs)
+        clock._thread.name = 'TempoClock-t'
+        seams._settle()
+        if host and host['kind'] == 'tempo':
+            other = ex.new_tempo_clock(2.0)
+            other._thread.name = 'TempoClock-o'
+            seams._settle()
+        if rt == 'late':
+            ex.chooser = vt.SCHED.chooser = _late_chooser()
+    else:
+        main.reset()
+        clock = TempoClock(*cargs)
+        if host and host['kind'] == 'tempo':
+            other = TempoClock(2.0)
     wake_count = [0]
 
     def rd(c):
         return [_g(lambda: c.beats), _g(lambda: c.seconds)]
 
-    def as_q(q, ph):
-        return q if ph == 0 else Quant(q, ph)
+    def as_q(q, ph, form='auto'):
+        return mk_quant(q, ph, form, Quant)
 
-    def mk_probe(tag, c):
+    def mk_probe(tag, c, redelta=None):
         def probe():
             wake_count[0] += 1
             if wake_count[0] > WAKE_LIMIT:      # deterministic step budget
@@ -80,23 +178,81 @@ def execute(prog):
                 raise RuntimeError('wake budget exceeded')
             if tag not in log['wakes']:
                 log['wakes'][tag] = rd(c)
+                return redelta
+            if tag not in log['wakes2']:
+                log['wakes2'][tag] = rd(c)
         return probe
+
+    def do_play(tag, c, q, ph, entry='rplay', form='auto'):
+        if entry in OTHER_ENTRIES:
+            if entry == 'next_bar':
+                c.play_next_bar(mk_probe(tag, c))
+            elif entry == 'sched':
+                # a plain function scheduled `q` beats from now; it returns
+                # `ph` once (ph > 0), so it is called again ph beats later
+                c.sched(q, mk_probe(tag, c, ph if ph > 0 else None))
+            else:
+                c.sched_abs(c.beats + q, mk_probe(tag, c))
+            return
+        f = mk_probe(tag, c)
+        Q = as_q(q, ph, form)
+        if entry == 'rplay':
+            Routine(f).play(c, Q)
+        elif entry == 'rplaykw':
+            Routine(f).play(clock=c, quant=Q)
+        elif entry == 'cplayf':
+            c.play(f, Q)
+        elif entry == 'cplayr':
+            c.play(Routine(f), Q)
+        elif entry == 'inherit':
+            Routine(f).play(None, Q)
+        elif entry == 'run':
+            Routine.run(f, c, Q)
+        elif entry == 'deco':
+            routine.run(c, Q)(f)
+        elif entry == 'resume':
+            r = Routine(f)
+            r.pause()
+            r.resume(c, Q)
+        elif entry == 'pattern':
+            # an event pattern (one rest event) played with the quant: its
+            # first event is evaluated at the quantised beat
+            from sc3.seq.patterns.eventpatterns import Pbind
+            from sc3.seq.patterns.funcpatterns import Pfuncn
+
+            def dur():
+                f()
+                return 1
+            Pbind({'type': 'rest', 'dur': Pfuncn(dur, 1)}).play(c, Q)
+        else:
+            raise core.HarnessError(f'bad play entry {entry}')
+
+    def player_step(c, k):
+        wake_count[0] += 1
+        if wake_count[0] > WAKE_LIMIT:
+            log['budget'] = True
+            return False
+        log['events'].append(['p', k] + rd(c))
+        return k < player['count']
 
     def player_fn(inval):
         # second routine on the same clock: resumes every `delta` beats
         # while the first routine performs the history
         _, c = inval
         k = 0
-        while True:
-            wake_count[0] += 1
-            if wake_count[0] > WAKE_LIMIT:
-                log['budget'] = True
-                return
-            log['events'].append(['p', k] + rd(c))
-            if k >= player['count']:
-                return
+        while player_step(c, k):
             k += 1
             yield player['delta']
+
+    def mk_player_func(c):
+        # the same as a plain function that returns its delta
+        k = [0]
+
+        def fplayer():
+            if player_step(c, k[0]):
+                k[0] += 1
+                return player['delta']
+        return fplayer
 
     def snapshot(c):
         s = {}
@@ -128,11 +284,14 @@ def execute(prog):
         s['next_bar'] = _g(c.next_bar)
         s['bar'] = _g(c.bar)
         s['beat_in_bar'] = _g(c.beat_in_bar)
+        s['bar_start'] = _g(lambda: c.bars2beats(c.bar()))
         s['ntog'] = []
-        for q, ph, rb in fin.get('ntog', ()):
+        for item in fin.get('ntog', ()):
+            q, ph, rb = item[:3]
+            form = item[3] if len(item) > 3 else 'auto'
             if rb is None:
                 r = _g(c.next_time_on_grid, q, ph)
-                t = _g(c.time_to_next_beat, as_q(q, ph))
+                t = _g(lambda: c.time_to_next_beat(as_q(q, ph, form)))
             else:
                 r = _g(c.next_time_on_grid, q, ph, rb)
                 t = None
@@ -144,11 +303,24 @@ def execute(prog):
             '_base_bar_beat')]
         return s
 
+    def tail(c):
+        log['final'] = snapshot(c)
+        for j, item in enumerate(fin.get('play', ())):
+            try:
+                do_play(f'p{j}', c, *item)
+            except core.HarnessError:
+                raise
+            except Exception as e:
+                log['wakes'][f'p{j}'] = ['!', type(e).__name__, str(e)[:80]]
+
     def body(inval):
         rout, c = inval
         log['start'] = rd(c)
         if player:
-            Routine(player_fn).play(c, 0)
+            if player.get('kind') == 'func':
+                c.sched(0, mk_player_func(c))
+            else:
+                Routine(player_fn).play(c, 0)
         for i, op in enumerate(ops):
             wake_count[0] += 1
             if wake_count[0] > WAKE_LIMIT:
@@ -172,7 +344,7 @@ def execute(prog):
                     tag = f's{i}'
                     log['spawned'][tag] = [
                         i, _g(c.next_time_on_grid, op[1], op[2])]
-                    Routine(mk_probe(tag, c)).play(c, as_q(op[1], op[2]))
+                    do_play(tag, c, *op[1:])
                 else:
                     raise core.HarnessError(f'bad op {op}')
             except core.HarnessError:
@@ -181,23 +353,69 @@ def execute(prog):
                 err = [type(e).__name__, str(e)[:80]]
             log['steps'].append([i, pre, rd(c), err])
             log['events'].append(['c', i])
-        log['final'] = snapshot(c)
-        for j, (q, ph) in enumerate(fin.get('play', ())):
-            try:
-                Routine(mk_probe(f'p{j}', c)).play(c, as_q(q, ph))
-            except Exception as e:
-                log['wakes'][f'p{j}'] = ['!', type(e).__name__, str(e)[:80]]
+        log['body_done'] = True
+        if not host:
+            tail(c)
+
+    def host_fn():
+        if host['kind'] == 'tempo':
+            yield host['at'] * 2.0
+        else:
+            yield host['at']
+        log['host_pair'] = rd(clock)
+        tail(clock)
 
     r = Routine(body)
+    hr = None
+    herr = []
     try:
+        if prog.get('ctor') is not None:
+            log['ctor_pair'] = rd(clock)
         r.play(clock, 0)
-        main.process()
+        if host and host['kind'] != 'main':
+            hr = Routine(host_fn)
+            hr.play(SystemClock if host['kind'] == 'system' else other, 0)
+        if rt:
+            S = vt.SCHED
+            try:
+                if host and host['kind'] == 'main':
+                    S.sleep(host['at'], exact=True)
+                    log['host_pair'] = rd(clock)
+                    tail(clock)
+                S.sleep(RT_HORIZON, exact=True)
+            except (vt.Deadlock, vt.Livelock) as e:
+                log['process_error'] = [type(e).__name__, str(e)[:120]]
+                S.deadlock = S.livelock = None
+        else:
+            if host and host['kind'] == 'main':
+                # NRT: the main thread stands at the time of the last event
+                # that was processed
+                SystemClock.sched(host['at'], lambda: None)
+                main.process()
+                log['host_pair'] = rd(clock)
+                tail(clock)
+            main.process()
     except core.HarnessError:
+        herr.append(True)
         raise
     except Exception as e:
         log['process_error'] = [type(e).__name__, str(e)[:120]]
-    main.reset()
-    del r, clock, body, snapshot, mk_probe, player_fn
+    finally:
+        if rt:
+            dead = [list(map(str, d)) for d in vt.SCHED.dead]
+            try:
+                problems = ex.finish()
+            except Exception as e:
+                if not herr:
+                    raise core.HarnessError(f'RT teardown failed: {e!r}')
+                problems = []
+            if dead or problems:
+                log['rt_problems'] = [dead, [list(map(str, p))
+                                             for p in problems]]
+        else:
+            main.reset()
+    del r, hr, clock, other, body, snapshot, mk_probe, player_fn, tail, \
+        host_fn, do_play, mk_player_func
     log['leaked_clocks'] = len(TempoClock.all)
     if log['leaked_clocks']:
         gc.collect()
@@ -213,19 +431,31 @@ def _num(x):
         and x == x and x not in (float('inf'), float('-inf'))
 
 
+def _short(x):
+    """A dyadic rational with few bits (every float is dyadic): sums,
+    differences and products by powers of two of a handful of such values
+    are exact in double precision."""
+    x = ref.frac(x)
+    return ref.is_dyadic(x) and x.denominator <= 2 ** 12 and abs(x) < 2 ** 12
+
+
 class Judge:
     def __init__(self, prog):
         self.prog = prog
         self.dis = []         # (kind, expected, observed, detail, step)
         nums = [prog['tempo']]
         for op in prog['ops']:
-            nums += op[1:]
+            nums += [x for x in op[1:] if not isinstance(x, str)]
         if prog.get('player'):
             nums.append(prog['player']['delta'])
+        nums += [x for x in (prog.get('ctor') or ()) if x is not None]
+        if prog.get('host'):
+            nums.append(prog['host']['at'])
+        self.rt = prog.get('rt')
         self.tempos = [prog['tempo']] + [op[1] for op in prog['ops']
                                          if op[0] in ('tempo', 'etempo')]
         self.exact = all(ref.is_pow2(t) for t in self.tempos) and \
-            all(ref.is_dyadic(n) for n in nums)
+            all(_short(n) for n in nums)
 
     # -- comparison helpers
     def close(self, obs, exp, exact=None):
@@ -251,7 +481,7 @@ class Judge:
             return False, 'error'
         exp = ref.next_time_on_grid(q, ph, rb, b0)
         o = F(obs)
-        if self.exact:
+        if self.exact and _short(q) and _short(ph) and _short(rb):
             if o == exp:
                 return True, None
             cands = [exp]
@@ -274,11 +504,40 @@ class Judge:
             return False, 'off-grid'
         return False, 'not-earliest'
 
+    @staticmethod
+    def play_target(item, B, m):
+        """Beat at which a probe played with `item` = [q, ph(, entry, form)]
+        at beat B has to wake first."""
+        entry = item[2] if len(item) > 2 else 'rplay'
+        if entry in ('sched', 'sched_abs'):
+            return F(B) + ref.frac(item[0])
+        if entry == 'next_bar':
+            return ref.next_bar(B, m.b0, m.bpb)
+        return ref.next_time_on_grid(item[0], item[1], B, m.b0)
+
     def run(self, log):
         prog = self.prog
         a = ref.Affine(prog['tempo'])
         m = ref.Meter()
         n = len(prog['ops'])
+        if prog.get('ctor') is not None:
+            # the statement does not say where a clock constructed with a
+            # beats / seconds reference starts: the pair read right after
+            # construction is adopted, everything after it has to follow
+            cp = log.get('ctor_pair')
+            if not (isinstance(cp, list) and len(cp) == 2 and _num(cp[0])
+                    and _num(cp[1])):
+                self.add('pair-unreadable-after-construction', None, cp,
+                         f'TempoClock{tuple([prog["tempo"]] + prog["ctor"])}',
+                         0)
+                return self.dis
+            a = ref.Affine(prog['tempo'], cp[0], cp[1])
+            if not _short(a.B) or not _short(a.S):
+                self.exact = False
+        if log.get('rt_problems'):
+            self.add('rt-thread-died', None, log['rt_problems'],
+                     'uncaught exception in a clock thread / problem while '
+                     'stopping the clocks', n)
         if log.get('budget'):
             self.add('wake-budget-exceeded', None, WAKE_LIMIT, '', n)
         if log.get('process_error'):
@@ -369,8 +628,9 @@ class Judge:
             elif k == 'spawn':
                 self.pair('spawn-moves-clock', post, a.B, a.S, '', i)
                 tag = f's{i}'
-                r = ref.next_time_on_grid(op[1], op[2], a.B, m.b0)
+                r = self.play_target(op[1:], a.B, m)
                 pend[tag] = {'beat': r, 'op': i, 'at': a.B,
+                             'entry': op[3] if len(op) > 3 else 'rplay',
                              'tempo_changed': False, 'beats_changed': False}
             # pending probes: what happened to the map while they waited
             # (a probe is still waiting while the beat is before its target)
@@ -383,6 +643,25 @@ class Judge:
                     # (a probe due at this very beat may still be queued
                     # behind the running routine)
                     p['beats_changed'] = True
+        host = prog.get('host')
+        if host:
+            if not log.get('body_done'):
+                self.add('routine-did-not-finish', None, None, '', n)
+                return self.dis
+            at = ref.frac(host['at'])
+            if not at > a.S:
+                raise core.HarnessError(
+                    f'host instant {at} is not after the history ({a.S})')
+            # the instant of the outside caller, on the map in force
+            a.jump(a.beats_at(at), at)
+            hp = log.get('host_pair')
+            if hp is None:
+                self.add('host-never-ran', [a.B, a.S], None, str(host), n)
+                return self.dis
+            self.pair('pair-seen-from-outside', hp, a.B, a.S,
+                      f'clock.beats / clock.seconds read by {host["kind"]} '
+                      f'(not a routine of this clock) at second {host["at"]}',
+                      n)
         self.final(log, a, m, n)
         self.pending(log, a, m, pend, n)
         self.player(pev.get(n, ()), a, pl, n)
@@ -439,6 +718,8 @@ class Judge:
             if p['beats_changed']:
                 continue
             kind = 'pending-play-wake'
+            if p['entry'] in OTHER_ENTRIES:
+                kind = 'pending-sched-wake'
             if p['tempo_changed']:
                 kind = 'pending-play-wake-after-tempo-change'
             if not (isinstance(w, list) and len(w) == 2 and _num(w[0])):
@@ -464,9 +745,13 @@ class Judge:
             self.add('tempo-readback', T, s['tempo'], '', n)
         if not self.close(s['beat_dur'], 1 / T):
             self.add('beat-dur-readback', 1 / T, s['beat_dur'], '', n)
-        if not self.close(s['elapsed_beats'], B):
+        # NRT: elapsed time is logical time.  RT: only while every timer is
+        # on time and no beats= has moved logical time away from it
+        if (not self.rt or (self.rt == 'rt' and not any(
+                op[0] == 'beats' for op in self.prog['ops']))) and \
+                not self.close(s['elapsed_beats'], B):
             self.add('elapsed-beats-nrt', B, s['elapsed_beats'],
-                     'NRT: elapsed time is logical time', n)
+                     'elapsed time is logical time here', n)
         if not self.close(s['b2s_now'], S):
             self.add('beats2secs-of-now', S, s['b2s_now'],
                      'beats2secs(clock.beats) is clock.seconds', n)
@@ -521,6 +806,7 @@ class Judge:
             prev = [k, beats]
         self.next_bar(s['next_bar'], B, m, 'next_bar() of the current beat',
                       n, cur=True)
+        self.beat_in_bar(s, B, m, bex, n)
         # ---- quantisation
         for q, ph, rb, r, t in s['ntog']:
             cur = rb is None
@@ -537,28 +823,99 @@ class Judge:
                 self.add('time-to-next-beat-inconsistent', F(r) - B, t,
                          f'time_to_next_beat(({q}, {ph})) vs '
                          f'next_time_on_grid - beats', n)
-        for j, (q, ph) in enumerate(fin.get('play', ())):
+        base_ok = {}
+        for j, item in enumerate(fin.get('play', ())):
+            q, ph = item[0], item[1]
+            entry = item[2] if len(item) > 2 else 'rplay'
+            form = item[3] if len(item) > 3 else 'auto'
+            plain = entry == 'rplay' and form == 'auto'
             w = log['wakes'].get(f'p{j}')
-            exp = ref.next_time_on_grid(q, ph, B, m.b0)
+            exp = self.play_target(item, B, m)
+            what = f'[play {j}] {entry}/{form} (quant {q}, phase {ph}) ' \
+                f'at beat {B}'
+            if not plain and base_ok.get((q, ph)) is False:
+                # the plain Routine.play(clock, Quant(q, ph)) of the same
+                # program already disagrees: reported there
+                continue
+            if entry != 'rplay' and base_ok.get((q, ph, form)) is False:
+                # Routine.play(clock, <this form>) already disagrees: the
+                # form is at fault, not the entry point
+                continue
+            if entry in OTHER_ENTRIES:
+                sfx = {'next_bar': 'play-next-bar', 'sched': 'sched',
+                       'sched_abs': 'sched-abs'}[entry]
+            elif plain:
+                sfx = 'play-quant'
+            elif entry != 'rplay':
+                sfx = f'play-via-{entry}'
+            else:
+                sfx = f'play-quant-form-{form}'
             if not (isinstance(w, list) and len(w) == 2 and _num(w[0])
                     and _num(w[1])):
-                self.add('play-quant-no-wake', [exp, a.secs_at(exp)], w,
-                         f'play(quant=({q}, {ph})) at beat {B}', n)
+                self.add(f'{sfx}-no-wake', [exp, a.secs_at(exp)], w, what, n)
+                if plain:
+                    base_ok[(q, ph)] = False
                 continue
-            ok, why = self.ntog_ok(w[0], q, ph, B, m.b0)
-            if not ok:
-                self.add(f'play-quant-wake-{why}', exp, w,
-                         f'play(quant=({q}, {ph})) at beat {B}, meter '
-                         f'change at {m.b0}', n)
-            elif not self.close(w[1], a.secs_at(F(w[0])), exact=False):
-                self.add('play-quant-wake-seconds', a.secs_at(exp), w,
-                         f'play(quant=({q}, {ph})) at beat {B}', n)
+            if entry == 'next_bar':
+                ok = self.next_bar(w[0], B, m, what, n, cur=True,
+                                   prefix='play-next-bar-wake')
+            elif entry in ('sched', 'sched_abs'):
+                ok = self.close(w[0], exp)
+                if not ok:
+                    self.add(f'{sfx}-wake-beat', exp, w, what, n)
+                elif entry == 'sched' and ph > 0:
+                    w2 = log['wakes2'].get(f'p{j}')
+                    e2 = exp + ref.frac(ph)
+                    if not (isinstance(w2, list) and _num(w2[0]) and
+                            self.close(w2[0], e2)):
+                        ok = False
+                        self.add('sched-returned-delta-wake-beat', e2, w2,
+                                 what + f'; the function returns {ph} once',
+                                 n)
+            else:
+                ok, why = self.ntog_ok(w[0], q, ph, B, m.b0)
+                if not ok and form == 'none':
+                    # quant=None: the documented default Quant() is
+                    # (1, 0); "no quantisation" is accepted as well
+                    ok, why = self.ntog_ok(w[0], 0, 0, B, m.b0)
+                if not ok:
+                    self.add(f'{sfx}-wake-{why}', exp, w,
+                             what + f', meter change at {m.b0}', n)
+            if plain:
+                base_ok[(q, ph)] = ok
+            if entry == 'rplay':
+                base_ok[(q, ph, form)] = ok
+            if ok and not self.close(w[1], a.secs_at(F(w[0])), exact=False):
+                self.add(f'{sfx}-wake-seconds', a.secs_at(exp), w, what, n)
 
-    def next_bar(self, nb, x, m, what, n, cur=False):
+    def beat_in_bar(self, s, B, m, bex, n):
+        """bar() / beat_in_bar() split the current beat into the start of
+        the bar it lies in and the offset into that bar."""
+        start, bib = s.get('bar_start'), s.get('beat_in_bar')
+        what = f'beat {B}: bars start at {m.b0} + k*{m.bpb}'
+        if not (_num(start) and _num(bib) and _num(s.get('bar'))):
+            self.add('beat-in-bar-error', None,
+                     [s.get('bar'), start, bib], what, n)
+            return
+        tol = 0 if bex else TOL
+        if not self.close(F(start) + F(bib), B, exact=bex):
+            self.add('bar-start-plus-beat-in-bar-not-current-beat', B,
+                     [start, bib], 'bars2beats(bar()) + beat_in_bar() vs '
+                     'beats; ' + what, n)
+            return
+        k = round((F(start) - m.b0) / m.bpb)
+        if abs(F(start) - (m.b0 + k * m.bpb)) > tol:
+            self.add('bar-start-not-a-bar-line', f'{m.b0} + k*{m.bpb}',
+                     start, 'bars2beats(bar()); ' + what, n)
+        elif not -tol <= F(bib) <= m.bpb + tol or (bex and F(bib) == m.bpb):
+            self.add('beat-in-bar-out-of-range', f'0 <= x < {m.bpb}', bib,
+                     'beat_in_bar(); ' + what, n)
+
+    def next_bar(self, nb, x, m, what, n, cur=False, prefix='next-bar'):
         sfx = '-curbeat' if cur else ''
         if not _num(nb):
-            self.add('next-bar-error' + sfx, None, nb, what, n)
-            return
+            self.add(f'{prefix}-error' + sfx, None, nb, what, n)
+            return False
         exact = self.exact and ref.is_dyadic(m.bpb)
         o = F(nb)
         x = F(x)
@@ -570,7 +927,7 @@ class Judge:
                      for e in (-TOL, 0, TOL)]
             tol = TOL
         if any(abs(o - c) <= tol for c in cands):
-            return
+            return True
         if o < x - tol:
             why = 'before-beat'
         else:
@@ -579,8 +936,9 @@ class Judge:
                 why = 'not-a-bar-line'
             else:
                 why = 'not-earliest'
-        self.add(f'next-bar-{why}{sfx}', cands[len(cands) // 2], nb,
+        self.add(f'{prefix}-{why}{sfx}', cands[len(cands) // 2], nb,
                  f'{what}: bars start at {m.b0} + k*{m.bpb}', n)
+        return False
 
 
 def _show(x):
@@ -598,6 +956,10 @@ def check_prog(prog, last_only=False, memo=False):
     """-> (disagreements [(kind, exp, obs, detail)], log).  `memo`: the
     result is a pure function of the program, so the history engine (which
     rebuilds every prefix for every child) may reuse it inside one worker."""
+    if prog.get('rt') and not Judge(prog).exact:
+        raise core.HarnessError(
+            'RT-virtual programs must use power-of-two tempos and short '
+            f'dyadic values: {core.canon(prog)[:300]}')
     if memo:
         mk = core.canon(prog)
         hit = _MEMO.get(mk)
@@ -666,13 +1028,19 @@ def grid_prog(case):
         ops.append(['beats', _ints(rb, i)])
     q, ph = _ints(case['q'], i), _ints(case['ph'], i)
     eff_bpb = bpb if bpb is not None else 4.0
-    return {'tempo': _ints(case['tempo'], i), 'ops': ops, 'final': {
+    return _with_rt(case, {'tempo': _ints(case['tempo'], i), 'ops': ops, 'final': {
         'conv_beats': [_ints(rb, i), -1.25, 3],
         'conv_secs': [0.75, _ints(2.0, i)],
         'bar_beats': [_ints(rb, i), b0 + eff_bpb, 2.5],
         'bars': [_ints(1.0, i), -0.5],
         'ntog': [[q, ph, _ints(rb, i)], [q, ph, None]],
-        'play': [[q, ph]]}}
+        'play': [[q, ph]]}})
+
+
+def _with_rt(case, prog):
+    if case.get('rt'):
+        prog['rt'] = case['rt']
+    return prog
 
 
 def grid_nontrivial(case):
@@ -720,15 +1088,23 @@ def grid_standalone(case):
 
 
 def work(job):
+    """job['slice'] = [k, n]: only every n-th case of the shard (the k-th
+    residue); job['rt']: run the cases in RT-virtual mode."""
     acc = progenum.Acc()
+    sl = job.get('slice')
     for idx, case in enumerate(grid_cases(job['grid'])):
         if idx % job['of'] != job['shard']:
             continue
+        if sl and (idx // job['of']) % sl[1] != sl[0]:
+            continue
+        if job.get('rt'):
+            case = dict(case, rt=job['rt'])
         prog = grid_prog(case)
         dis, log = check_prog(prog)
         for kind, exp, obs, detail in dis:
             acc.violation(kind, {'grid': case}, exp, obs, detail,
-                          standalone=grid_standalone(case))
+                          standalone=None if case.get('rt') else
+                          grid_standalone(case))
         f = log.get('final') or {}
         acc.case({'grid': case}, nontrivial=grid_nontrivial(case),
                  outcome=[f.get('ntog'), log.get('wakes'),
@@ -822,6 +1198,129 @@ def work_offref(job):
 
 
 # ---------------------------------------------------------------------------
+# E1c: every way to play with a quant, from inside and outside the clock
+
+# [who makes the final queries and plays, at which second, constructor
+#  (beats, seconds) arguments of the clock]
+CONTEXTS = [
+    [None, None, None],
+    ['main', 40.0, None], ['system', 40.75, None], ['tempo', 40.75, None],
+    [None, None, [5.0, None]], [None, None, [2.5, -2.0]],
+    [None, None, [0, 0.0]],
+    ['main', 40.75, [None, 1.5]], ['system', 40.0, [-3, None]],
+    ['tempo', 40.0, [2.5, -2.0]],
+]
+
+# how the routine on the clock gets away from the meter change before the
+# plays: the offref routes plus two that re-base the map (tempo change after
+# a yield; tempo, beats and tempo again in one instant)
+FORM_ROUTES = ROUTES + [
+    [['yield', 0.75], ['tempo', 4.0], ['yield', 1.5]],
+    [['yield', 0.5], ['tempo', 0.5], ['beats', 3.0], ['tempo', 4.0]]]
+
+FORM_QP_Q = [[0.0, 0.0], [1.0, 0.0], [4.0, 0.0], [1.5, 0.5], [4.0, -1.0],
+             [2.0, -0.5], [0.5, 0.25], [3.0, 2.0]]
+FORM_QP_T = FORM_QP_Q + [[2.0, 0.0], [1.5, 0.0], [1.0, 0.75], [1.0, -0.25],
+                         [4.0, 3.5], [0.25, 0.0]]
+
+
+def forms_plays(q, ph, host):
+    """Every (entry point, quant form) for (q, ph); the plain
+    Routine.play(clock, number | Quant) comes first."""
+    forms = ['quant', 'kw', 'tuple', 'list']
+    if ph == 0:
+        forms += ['num', 'quant1', 'list1']
+        if q == 1:
+            forms.append('none')
+    out = [[q, ph, 'rplay', 'auto']]
+    for entry in QUANT_ENTRIES:
+        if entry == 'inherit' and host:
+            continue        # would play on the caller's clock
+        for form in forms:
+            out.append([q, ph, entry, form])
+    out += [[0, 0, 'next_bar', 'auto'],
+            [q, ph if ph > 0 else 0, 'sched', 'auto'],
+            [q, 0, 'sched_abs', 'auto'], [0, 0.75, 'sched', 'auto']]
+    return out, forms
+
+
+def forms_cases(g):
+    for tempo in g['tempos']:
+        for b0, bpb in g['meters']:
+            for route in range(len(FORM_ROUTES)):
+                for q, ph in g['qp']:
+                    for ints in g.get('ints', (False, True)):
+                        if ints and not any(
+                                isinstance(v, float) and v == int(v)
+                                for v in (tempo, q, ph, bpb)):
+                            continue
+                        for ctx in range(len(CONTEXTS)):
+                            for rt in g.get('rt', [None]):
+                                yield {'tempo': tempo, 'b0': b0, 'bpb': bpb,
+                                       'route': route, 'q': q, 'ph': ph,
+                                       'ints': ints, 'ctx': ctx, 'rt': rt,
+                                       'plays': 'all'}
+
+
+def forms_prog(case):
+    i = case['ints']
+    ops = []
+    if case['b0'] > 0:
+        ops.append(['yield', _ints(case['b0'], i)])
+    if case['bpb'] is not None:
+        ops.append(['bpb', _ints(case['bpb'], i)])
+    ops += FORM_ROUTES[case['route']]
+    hk, at, ctor = CONTEXTS[case['ctx']]
+    q, ph = _ints(case['q'], i), _ints(case['ph'], i)
+    plays, forms = forms_plays(q, ph, hk)
+    if case['plays'] != 'all':
+        plays = case['plays']
+    prog = {'tempo': _ints(case['tempo'], i), 'ops': ops, 'final': {
+        'conv_beats': [0, -1.25, 7.5], 'conv_secs': [0, 0.75],
+        'bars': [1, -0.5], 'bar_beats': [0, 2.25, -1.5],
+        'ntog': [[q, ph, None, f] for f in ['auto'] + forms
+                 if f != 'none'] + [[q, ph, r] for r in (0, 0.0, -1.5, 2.25)],
+        'play': plays}}
+    if hk:
+        prog['host'] = {'kind': hk, 'at': at}
+    if ctor:
+        prog['ctor'] = ctor
+    return _with_rt(case, prog)
+
+
+def work_forms(job):
+    acc = progenum.Acc()
+    narrowed = {}
+    for idx, case in enumerate(forms_cases(job['grid'])):
+        if idx % job['of'] != job['shard']:
+            continue
+        prog = forms_prog(case)
+        dis, log = check_prog(prog)
+        for kind, exp, obs, detail in dis:
+            acc.violation(kind, {'forms': dict(case, plays=prog['final'][
+                'play'])}, exp, obs, detail)
+            # report the single failing play (bounded work per shard)
+            if narrowed.get(kind, 0) < 2:
+                narrowed[kind] = narrowed.get(kind, 0) + 1
+                plays = prog['final']['play']
+                hit = re.match(r'\[play (\d+)\]', str(detail))
+                one = dict(case, plays=plays[:1] if not hit or hit.group(
+                    1) == '0' else [plays[0], plays[int(hit.group(1))]])
+                for k2, e2, o2, d2 in check_prog(forms_prog(one))[0]:
+                    if k2 == kind:
+                        acc.violation(k2, {'forms': one}, e2, o2, d2)
+        f = log.get('final') or {}
+        # non-trivial: every case plays through every entry point and quant
+        # form and at least one of: caller outside the clock, constructor
+        # offset, clock away from the meter change (always: the routes)
+        acc.case({'forms': case}, nontrivial=True,
+                 outcome=[f.get('ntog'), log.get('wakes'),
+                          log.get('wakes2'), f.get('pair')],
+                 steps=len(prog['ops']) + 1 + len(prog['final']['play']))
+    return acc.result()
+
+
+# ---------------------------------------------------------------------------
 # E2: histories
 
 FINAL_E2 = {
@@ -861,13 +1360,16 @@ class AffineSys:
         p = self.params
         o = [['yield', d] for d in p['deltas']]
         o += [['tempo', v] for v in p['tempos']]
-        o += [['etempo', v] for v in p.get('etempos', ())]
+        if not p.get('rt') or not any(h[0] == 'beats' for h in self.hist):
+            # RT: etempo re-bases at the *physical* instant, which is the
+            # logical one only until a beats= has moved logical time
+            o += [['etempo', v] for v in p.get('etempos', ())]
         o += [['beats', v] for v in p['beats']]
         o += [['bpb', v] for v in p['bpbs']]
         if self.spawn:
             n = sum(1 for h in self.hist if h[0] == 'spawn')
             if n < p.get('max_spawn', 2):
-                o += [['spawn', q, ph] for q, ph in p['quants']]
+                o += [['spawn'] + list(x) for x in p['quants']]
         return o
 
     def apply(self, op):
@@ -876,6 +1378,8 @@ class AffineSys:
                 'final': self.final}
         if self.params.get('player'):
             prog['player'] = self.params['player']
+        if self.params.get('rt'):
+            prog['rt'] = self.params['rt']
         dis, self.log = check_prog(prog, last_only=True, memo=True)
         self.last_kinds = sorted(set(d[0] for d in dis))
         return dis
@@ -955,6 +1459,15 @@ class PlayerSys(AffineSys):
 SYSTEMS = {'affine': AffineSys, 'pending': PendingSys, 'player': PlayerSys}
 
 
+def REPLAY_MODE(v):
+    """Worker mode a violation has to be replayed in."""
+    c = v['case']
+    for fam in ('grid', 'offref', 'forms'):
+        if fam in c:
+            return 'rt' if c[fam].get('rt') else 'nrt'
+    return 'rt' if (c.get('params') or {}).get('rt') else 'nrt'
+
+
 def replay(job):
     case = job['case']
     if 'grid' in case:
@@ -962,6 +1475,11 @@ def replay(job):
         return {'violates': any(d[0] == job['kind'] for d in dis),
                 'disagreements': [[d[0], repr(d[1]), repr(d[2])]
                                   for d in dis]}
+    if 'forms' in case:
+        dis, log = check_prog(forms_prog(case['forms']))
+        return {'violates': any(d[0] == job['kind'] for d in dis),
+                'disagreements': [[d[0], repr(d[1]), repr(d[2])]
+                                  for d in dis][:40]}
     if 'offref' in case:
         c = case['offref']
         dis, log = check_prog(offref_prog(c, c['refs']))
@@ -993,26 +1511,80 @@ GRID_T = {
     'quants': [0.0, 1.0, 0.5, 1.5, 2.0, 4.0, 3.0],
     'phases': _quarter(-4.0, 4.0)}
 
+# values off the quarter grid (72 bpm, triplets, tenths, 7/8-like bars):
+# nothing is exact here, the 1e-9 tolerance rules apply
+GRID_ODD = {
+    'tempos': [1.2, 1.0],
+    'meters': [[0.0, None], [0.7, 3.5], [0.0, 0.75]],
+    'refs': [-0.9, 0.0, 0.1, 0.3, 1 / 3, 2 / 3, 0.7, 1.0, 2.1, 3.3],
+    'quants': [0.0, 1 / 3, 0.1, 0.7, 1.0, 2.5],
+    'phases': [-0.6, -0.2, -0.05, 0.0, 0.05, 0.1, 1 / 6, 0.5]}
+
 AFF_Q = {'tempo': 1.0, 'deltas': [0.25, 1.0, 1.5], 'tempos': [2.0, 0.5],
          'etempos': [4.0], 'beats': [0.0, 2.5], 'bpbs': [3.0, 2.0]}
 AFF_3 = {'tempo': 2.0, 'deltas': [0.25, 1], 'tempos': [3.0, 1],
          'etempos': [], 'beats': [-1.0], 'bpbs': [3, 1.5]}
 AFF_T = {'tempo': 1.0, 'deltas': [0.25, 1.0, 1.5], 'tempos': [2.0, 0.5, 3.0],
          'etempos': [4.0], 'beats': [0.0, 2.5, -1.0], 'bpbs': [3.0, 2.0]}
+# values that are not dyadic: 72 bpm, triplets, tenths, 7/8-like bars
+AFF_N = {'tempo': 1.2, 'deltas': [0.1, 1 / 3], 'tempos': [2.5, 0.7],
+         'etempos': [1.1], 'beats': [0.3], 'bpbs': [3.5, 0.75]}
 PEND_Q = {'tempo': 1.0, 'deltas': [0.5, 1.0], 'tempos': [2.0],
           'etempos': [], 'beats': [0.0], 'bpbs': [3.0],
-          'quants': [[4, 0], [1.5, 0.5]], 'max_spawn': 1}
+          'quants': [[4, 0], [1.5, 0.5], [2.25, 0, 'sched', 'auto']],
+          'max_spawn': 1}
 PEND_T = {'tempo': 1.0, 'deltas': [0.5, 1.0, 2.25], 'tempos': [2.0, 0.5],
           'etempos': [4.0], 'beats': [0.0, 5.0], 'bpbs': [3.0],
-          'quants': [[4, 0], [1.5, 0.5], [1, -0.25]], 'max_spawn': 2}
+          'quants': [[4, 0], [1.5, 0.5], [1, -0.25],
+                     [2.25, 0, 'sched', 'auto'], [4, -1, 'cplayf', 'tuple']],
+          'max_spawn': 2}
 
 
 PLAY_Q = {'tempo': 1.0, 'deltas': [0.5, 1.0], 'tempos': [2.0, 0.5],
           'etempos': [4.0], 'beats': [2.5], 'bpbs': [],
           'player': {'delta': 1.0, 'count': 8}}
+PLAY_F = {'tempo': 1.0, 'deltas': [0.5, 1.0], 'tempos': [2.0, 0.5],
+          'etempos': [4.0], 'beats': [2.5], 'bpbs': [],
+          'player': {'delta': 0.75, 'count': 8, 'kind': 'func'}}
 PLAY_T = {'tempo': 1.0, 'deltas': [0.5, 1.0, 2.25], 'tempos': [2.0, 0.5, 3.0],
           'etempos': [4.0], 'beats': [2.5, 0.0], 'bpbs': [3.0],
           'player': {'delta': 0.75, 'count': 20}}
+
+# RT-virtual mode.  'rt': every timer on time; 'late': every timed wake-up
+# 2**-10 s late (logical time must not notice; etempo, which re-bases at
+# the physical instant, is left out there).  Only power-of-two tempos and
+# short dyadic values: the clock thread compares elapsed beats computed in
+# floating point with the scheduled beat and waits again for the remainder;
+# with inexact values that remainder can be 0 while the comparison still
+# fails, which real time resolves within a tick of time.time() but frozen
+# virtual time never does (check_prog refuses such programs)
+RT_AFF = {'tempo': 1.0, 'deltas': [0.25, 1.0], 'tempos': [2.0, 0.5],
+          'etempos': [4.0], 'beats': [2.5], 'bpbs': [3.0], 'rt': 'rt'}
+RT_AFF_L = {'tempo': 2.0, 'deltas': [0.25, 1.5], 'tempos': [0.5, 1],
+            'etempos': [], 'beats': [-1.0], 'bpbs': [3, 1.5], 'rt': 'late'}
+RT_PEND = {'tempo': 1.0, 'deltas': [0.5, 1.0], 'tempos': [2.0],
+           'etempos': [], 'beats': [0.0], 'bpbs': [3.0],
+           'quants': [[4, 0], [1.5, 0.5], [2.25, 0, 'sched', 'auto']],
+           'max_spawn': 1, 'rt': 'late'}
+RT_PLAY = {'tempo': 1.0, 'deltas': [0.5, 1.0], 'tempos': [2.0, 0.5],
+           'etempos': [], 'beats': [2.5], 'bpbs': [],
+           'player': {'delta': 0.75, 'count': 6}, 'rt': 'late'}
+RT_PLAY_F = {'tempo': 1.0, 'deltas': [0.5, 1.0], 'tempos': [2.0, 0.5],
+             'etempos': [4.0], 'beats': [], 'bpbs': [],
+             'player': {'delta': 1.0, 'count': 6, 'kind': 'func'},
+             'rt': 'rt'}
+
+FORMS_Q = {'tempos': [2.0, 0.5, 3.0],
+           'meters': [[0.0, None], [1.5, 3.0], [3.0, 2.0]],
+           'qp': FORM_QP_Q}
+FORMS_T = {'tempos': [1.0, 2.0, 0.5, 4.0, 3.0, 1.5],
+           'meters': GRID_T['meters'], 'qp': FORM_QP_T}
+FORMS_RT_Q = {'tempos': [2.0, 0.5], 'meters': [[0.0, None], [1.5, 3.0]],
+              'qp': FORM_QP_Q, 'ints': [False], 'rt': ['rt', 'late']}
+FORMS_RT_T = {'tempos': [1.0, 2.0, 0.5],
+              'meters': [[0.0, None], [1.5, 3.0], [3.0, 2.0]],
+              'qp': FORM_QP_T, 'rt': ['rt', 'late']}
+RT_GRID_SLICES = 32    # quick: 1/32 of the grid is also run in RT-virtual
 
 
 def main(ctx):
@@ -1023,21 +1595,39 @@ def main(ctx):
         'routine on a fresh TempoClock that reaches the reference beat by '
         'yields (or beats= when it lies in the past) and then queries '
         'next_time_on_grid (explicit and current reference), '
-        'time_to_next_beat, play(quant) of a probe, both conversions and '
-        'next_bar.  Non-trivial = reference beat is itself a grid point or '
+        'time_to_next_beat, play(quant) of a probe, both conversions, '
+        'next_bar and bar()/beat_in_bar().  Non-trivial = reference beat is '
+        'itself a grid point or '
         'bar line, lies before the meter change, phase negative, quant 0, '
         'or ints and floats mixed.  E1b (offref): for every (tempo, meter, '
         'route to a current beat b0+1.25 / b0+5.5 / beats=-0.75 / '
         'beats=7.75, quant, phase, number type) next_time_on_grid(q, ph, x) '
         'and next_bar(x) are queried for the whole reference-beat set '
         '(float and int forms, 0 and 0.0) while the clock is at another '
-        'beat; all of these cases are non-trivial.  E2: BFS over all histories of '
+        'beat; all of these cases are non-trivial.  E1c (forms): for every '
+        '(tempo, meter, route, (quant, phase), number type, context) one '
+        'program plays a probe through every entry point (Routine.play '
+        'positional / keyword / inherited clock, TempoClock.play of a '
+        'function and of a routine, Routine.run, routine.run decorator, '
+        'pause+resume(clock, quant)) x every form Quant.as_quant accepts '
+        '(number, Quant positional / keyword / one argument, tuple, list, '
+        'one-element list, None), plus play_next_bar, sched(delta) of a '
+        'function that returns a delta once and sched_abs, and asks '
+        'time_to_next_beat with every form; context = who asks (the routine '
+        'on the clock, the main thread, a routine on SystemClock or on '
+        'another TempoClock at second 40 / 40.75 / 48) x constructor '
+        '(beats, seconds) arguments; all forms cases are non-trivial.  The '
+        'forms family (sub-grid) and a slice of E1 are run in RT-virtual '
+        'mode as well, with every timer on time and with every timed '
+        'wake-up 2**-10 s late.  E2: BFS over all histories of '
         '{yield d, tempo=, etempo(), beats=, beats_per_bar=[, play(probe, '
-        'quant)]} executed by one routine on the clock, states merged on '
+        'quant) / sched(d, probe)]} executed by one routine on the clock '
+        '(NRT, and RT-virtual on time / late), states merged on '
         'the eight map/meter fields of the clock plus the current '
         '(beats, seconds); non-trivial = a re-basing operation happens '
         'after a yield or two happen at one instant.  The player system '
-        'runs a second routine on the same clock that yields a fixed delta '
+        'runs a second routine (or a plain function returning its delta) '
+        'on the same clock that resumes every delta beats '
         'while the first performs the history; every resumption must be at '
         'beat k*delta and at the second the map in force gives for it.')
     ctx.assumptions += [
@@ -1051,32 +1641,81 @@ def main(ctx):
         'don\'t-cares: where a routine wakes after it has set beats= itself '
         '(only required to lie on the affine map); where probes that were '
         'or a second routine that were pending during a beats= change '
-        'wake; bar *numbers* (only bar lines '
-        'and the inverse laws are checked); constructor arguments beats/'
-        'seconds; negative tempo via etempo; quant < 0',
-        'NRT mode only: elapsed time equals logical time, so etempo() is '
-        'tempo= and the real-time clock thread (_run) is not exercised']
-    ctx.bounds['mode'] = 'nrt only (RT-virtual mode not available)'
+        'wake; bar *numbers* (only bar lines, the inverse laws and '
+        'bars2beats(bar()) + beat_in_bar() = beats with 0 <= beat_in_bar < '
+        'beats_per_bar are checked); the pair a clock constructed with '
+        'beats/seconds arguments starts from (the pair read right after '
+        'construction is adopted); quant=None (documented default Quant() '
+        '= (1, 0); no quantisation is accepted too); negative tempo via '
+        'etempo; quant < 0; RT: etempo() after a beats= or with late '
+        'timers (it re-bases at the physical instant)',
+        'RT-virtual mode (mc/seams.py + mc/vthreading.py): default '
+        'schedule only (no preemption), timers on time or uniformly late; '
+        'interleavings are the business of C05/C08']
+    ctx.bounds['mode'] = 'nrt + rt-virtual (default schedule; on time / late)'
     if ctx.tier == 'quick':
         grid, nsh = GRID_Q, 64
+        forms, forms_rt = FORMS_Q, FORMS_RT_Q
         e2 = [('affine', AFF_Q, 5), ('affine', AFF_3, 5),
-              ('pending', PEND_Q, 5), ('player', PLAY_Q, 5)]
+              ('affine', AFF_N, 4),
+              ('pending', PEND_Q, 5), ('player', PLAY_Q, 5),
+              ('player', PLAY_F, 4),
+              ('affine', RT_AFF, 4), ('affine', RT_AFF_L, 4),
+              ('pending', RT_PEND, 3), ('player', RT_PLAY, 3),
+              ('player', RT_PLAY_F, 3)]
     else:
         grid, nsh = GRID_T, 256
+        forms, forms_rt = FORMS_T, FORMS_RT_T
         e2 = [('affine', AFF_T, 6), ('affine', AFF_3, 7),
+              ('affine', AFF_N, 6),
               ('pending', PEND_T, 5), ('player', PLAY_Q, 6),
-              ('player', PLAY_T, 5)]
+              ('player', PLAY_F, 6), ('player', PLAY_T, 5),
+              ('affine', RT_AFF, 5), ('affine', RT_AFF_L, 5),
+              ('pending', RT_PEND, 5), ('player', RT_PLAY, 4),
+              ('player', RT_PLAY_F, 4)]
     ctx.bounds['grid_alphabet'] = {k: (v if len(v) < 12 else
                               f'{v[0]}..{v[-1]} step 0.25 ({len(v)})')
                           for k, v in grid.items()}
     jobs = [{'grid': grid, 'shard': i, 'of': nsh} for i in range(nsh)]
     progenum.run(ctx, MODNAME, 'work', jobs, mode='nrt', bound='grid')
+    ctx.bounds['grid_odd_alphabet'] = GRID_ODD
+    jobs = [{'grid': GRID_ODD, 'shard': i, 'of': 16} for i in range(16)]
+    progenum.run(ctx, MODNAME, 'work', jobs, mode='nrt', bound='grid-odd')
     ctx.bounds['offref_routes'] = ROUTES
     jobs = [{'grid': grid, 'shard': i, 'of': nsh} for i in range(nsh)]
     progenum.run(ctx, MODNAME, 'work_offref', jobs, mode='nrt',
                  bound='offref')
+    ctx.bounds['forms_alphabet'] = {
+        'nrt': forms, 'rt': forms_rt, 'contexts': CONTEXTS,
+        'routes': FORM_ROUTES,
+        'entries': list(QUANT_ENTRIES + OTHER_ENTRIES),
+        'quant_forms': list(QUANT_FORMS)}
+    jobs = [{'grid': forms, 'shard': i, 'of': nsh} for i in range(nsh)]
+    progenum.run(ctx, MODNAME, 'work_forms', jobs, mode='nrt', bound='forms')
+    jobs = [{'grid': forms_rt, 'shard': i, 'of': nsh} for i in range(nsh)]
+    progenum.run(ctx, MODNAME, 'work_forms', jobs, mode='rt',
+                 bound='forms-rt')
+    # E1 in RT-virtual mode: quick = the seed-selected 1/32 of the grid
+    # (label says slice), thorough = every 16th case per timer variant
+    if ctx.tier == 'quick':
+        k = core.pick_slice(ctx.seed, RT_GRID_SLICES)
+        plan = [('rt' if k % 2 == 0 else 'late', [k, RT_GRID_SLICES],
+                 f'grid-rt slice {k}/{RT_GRID_SLICES} (seed-selected, not '
+                 f'exhaustive)')]
+    else:
+        plan = [('rt', [0, 16], 'grid-rt on time: cases 0 mod 16 of every '
+                 'shard (slice, not exhaustive)'),
+                ('late', [8, 16], 'grid-rt late: cases 8 mod 16 of every '
+                 'shard (slice, not exhaustive)')]
+    rgrid = dict(grid, tempos=[t for t in grid['tempos'] if ref.is_pow2(t)])
+    ctx.bounds['grid_rt_tempos'] = rgrid['tempos']
+    for rt, sl, label in plan:
+        jobs = [{'grid': rgrid, 'shard': i, 'of': nsh, 'slice': sl, 'rt': rt}
+                for i in range(nsh)]
+        progenum.run(ctx, MODNAME, 'work', jobs, mode='rt', bound=label)
     for name, params, depth in e2:
-        histbfs.run(ctx, MODNAME, name, params, depth, mode='nrt', batch=32)
+        histbfs.run(ctx, MODNAME, name, params, depth,
+                    mode='rt' if params.get('rt') else 'nrt', batch=32)
 
 
 # ---------------------------------------------------------------------------
